@@ -86,6 +86,9 @@ func judgeC01(c *core.Case, cfg *core.Config) core.Verdict {
 		got, err = run(prog, env)
 	}
 	v.Classes = append(v.Classes, "mode:"+mode, fmt.Sprintf("opt:%v", opt))
+	if x.HasZoo() {
+		v.Classes = append(v.Classes, "zoo")
+	}
 	for _, k := range x.Kinds() {
 		v.Classes = append(v.Classes, "has:"+k)
 	}
@@ -157,6 +160,9 @@ func genC01(t *rapid.T, cfg *core.Config, order bool, biased ...bool) *core.Case
 	g.Calls = rapid.IntRange(0, 9).Draw(t, "calls") < 7
 	mode := rapid.SampledFrom([]string{"typed", "typed", "typed", "untyped", "eval"}).Draw(t, "mode")
 	g.AllDynamic = mode != "typed"
+	if rapid.IntRange(0, 2).Draw(t, "zoo") == 0 {
+		g.Zoo = rapid.IntRange(5, 40).Draw(t, "zoo%")
+	}
 	if order {
 		// evaluation-order stream: small programs in which most scalar operands are wrapped in logging calls
 		g.Calls = true
